@@ -619,6 +619,18 @@ class FnEmitter:
                     self.pre.append('%s = %s; if (!%s) { %s %s = %s; }' % (t, x, t, ' '.join(pb), t, y))
                 return t
             return '(%s %s %s)' % (x, op, y)
+        ta, tb = self.ctype(a), self.ctype(b)
+        if op in ('<', '>', '<=', '>=') and ta.endswith('*') and tb.endswith('*'):
+            # relational comparison of possibly unrelated pointers (the 'is v inside [begin, end)' idiom): total order on (object, offset)
+            self.f.l0.add('L0_PTR_CMP')
+            return 'L0_PTR_CMP(%s, %s, %s)' % (self.rv(a), op, self.rv(b))
+        if op in ('+', '-') and ta.endswith('*') and not tb.endswith('*'):
+            # p + 0 is well defined for a null p in C++; keep CBMC's check for every non-zero offset
+            self.f.l0.add('L0_PADD')
+            return 'L0_PADD(%s, %s, %s)' % (self.rv(a), op, self.rv(b))
+        if op == '+' and tb.endswith('*') and not ta.endswith('*'):
+            self.f.l0.add('L0_PADD')
+            return 'L0_PADD(%s, +, %s)' % (self.rv(b), self.rv(a))
         return '(%s %s %s)' % (self.rv(a), op, self.rv(b))
 
     def throw_expr(self, e):
